@@ -7,6 +7,7 @@ import ast
 from ..cfg import cfg_of
 from ..model import AnalysisError, call_name, calls_in, dotted, norm, walk_no_nested
 from .. import rules
+from .. import conds as cnd
 from . import _codec, _items
 
 ITEM_NUMERIC = {"U1": "ItemU1", "U2": "ItemU2", "U4": "ItemU4", "U8": "ItemU8", "I1": "ItemI1", "I2": "ItemI2", "I4": "ItemI4", "I8": "ItemI8", "F4": "ItemF4", "F8": "ItemF8"}
@@ -134,7 +135,7 @@ def check_from_value(ctx):
     ok = all(got.get(k) == v for k, v in want.items()) and got.get("float") == "cls._from_value_float" and got.get("int") == "cls._from_value_int"
     ctx.ob("C14.P2", q, ok, "list->L, str->A, bytes->B, bool->BOOLEAN, float/int -> width selection" if ok else f"from_value dispatch table is {got}", key="dispatch", where=f.where)
     # result returned by identity
-    truthy = [n for n in cfg.nodes if n.kind == "test" and norm(n.ast) == "result"]
+    truthy = [n for n in cfg.nodes if n.kind == "test" and cnd.canon(n.ast, True) in ({("result", True)}, {("result", False)})]
     defines_len = [c.name for c in [repo.cls("Item")] + repo.subclasses("Item") if "__len__" in c.methods or "__bool__" in c.methods]
     ok = not (truthy and defines_len)
     ctx.ob("C14.P2", q, ok, "a created item is always returned" if ok else
